@@ -248,7 +248,10 @@ def covN : Node → M Cov
       let (kf, f') ← covSlot f
       pure ⟨0, kt + kf, .ifs c t' f'⟩
   | .ret none => pure ⟨0, 0, .ret none⟩
-  | .ret (some x) => do let c ← covN x; pure ⟨c.up, c.inner, .ret (some c.mod)⟩
+  | n@(.ret (some x)) =>
+    -- the analysis passes over return statements: the returned expression must not change a variable
+    if hasEffect x then pure ⟨1, 0, n⟩
+    else do let c ← covN x; pure ⟨c.up, c.inner, .ret (some c.mod)⟩
   | .case_ e ss => do let (k, ss') ← covList ss; pure ⟨0, k, .case_ e ss'⟩
   | .default_ ss => do let (k, ss') ← covList ss; pure ⟨0, k, .default_ ss'⟩
   | .compound none => pure ⟨0, 0, .compound none⟩
